@@ -73,6 +73,9 @@ func (in *Interp) Run(src string) Result {
 	if c == cBreak || c == cContinue {
 		v = Err("unexpected control outside of for loops")
 	}
+	if hasCaughtMsg(v) {
+		in.unsup("the message of a caught error is (part of) the final value")
+	}
 	return Result{Out: in.Out.String(), Val: v, IsErr: v.IsErr(), Unsup: in.Unsup}
 }
 
@@ -497,6 +500,9 @@ func (in *Interp) infix(n *Node, f *Frame) Value {
 	r := in.ev(n.K[1], f)
 	if r.IsErr() {
 		return r
+	}
+	if hasCaughtMsg(l) || hasCaughtMsg(r) {
+		in.unsup("operating on the message of a caught error")
 	}
 	res := Binary(op, l, r)
 	if res.IsErr() && strings.HasPrefix(res.S, "unsupported") {
@@ -961,6 +967,30 @@ func (in *Interp) forLoop(n *Node, f *Frame) (Value, ctl) {
 	}
 }
 
+// caughtMsg stands for the message of a caught error: its wording is not part of the reference semantics, so a
+// program is only comparable as long as it does not look at it (printing, comparing, measuring, returning it).
+const caughtMsg = "\x00caught-error-message\x00"
+
+func hasCaughtMsg(v Value) bool {
+	switch v.Kind {
+	case KString:
+		return strings.Contains(v.S, caughtMsg)
+	case KArray:
+		for _, e := range v.A {
+			if hasCaughtMsg(e) {
+				return true
+			}
+		}
+	case KMap:
+		for _, p := range v.M {
+			if hasCaughtMsg(p.K) || hasCaughtMsg(p.V) {
+				return true
+			}
+		}
+	}
+	return false
+}
+
 func containsFunc(v Value) bool {
 	switch v.Kind {
 	case KFunc:
@@ -1017,6 +1047,9 @@ func (in *Interp) builtin(n *Node, f *Frame) Value {
 			if containsFunc(v) {
 				in.unsup("printing a function")
 			}
+			if hasCaughtMsg(v) {
+				in.unsup("printing the message of a caught error (wording is unspecified)")
+			}
 			parts = append(parts, printable(v))
 		}
 		s := strings.Join(parts, " ")
@@ -1030,13 +1063,15 @@ func (in *Interp) builtin(n *Node, f *Frame) Value {
 		return Nil
 	}
 	v, _ := in.eval(n.K[0], f)
+	if name != "catch" && hasCaughtMsg(v) {
+		in.unsup("using the message of a caught error")
+	}
 	if name == "catch" {
 		if v.IsErr() {
 			if strings.HasPrefix(v.S, "unsupported") {
 				return v
 			}
-			in.unsup("catch of an error (message wording is unspecified)")
-			return NewMap(Pair{Str("err"), Bool(true)}, Pair{Str("value"), Str(v.S)})
+			return NewMap(Pair{Str("err"), Bool(true)}, Pair{Str("value"), Str(caughtMsg)})
 		}
 		return NewMap(Pair{Str("err"), Bool(false)}, Pair{Str("value"), v})
 	}
